@@ -170,7 +170,8 @@ def judge_error(ctx: core.Ctx, err: LiquidError, source: str, what: str) -> None
         return
     # Token's own contract (liquid/token.py: "start_index: the index into source where this token starts"): the text at the
     # reported position is the token the error names.  Quoted strings and the synthetic end-of-stream token are exempt.
-    if tok.kind not in ("end of expression", "EOF") and tok.value and not source[tok.start_index :].startswith(tok.value):
+    # Top-level tokens whose value is a *body* (doc, comment, raw, content, the expression part of a tag) start at their markup.
+    if tok.kind not in ("end of expression", "EOF", "doc", "comment", "COMMENT", "raw", "content", "expression", "output") and tok.value and not source[tok.start_index :].startswith(tok.value):
         rest = source[tok.start_index :]
         quoted = rest[:1] in "'\"" and rest[1:].startswith(tok.value)
         bracket = rest[:1] == "[" and tok.value in rest.split("]", 1)[0]
